@@ -19,13 +19,13 @@ ID = "C11"
 RULE = ("clean motif networks from the harness builder: families {2-clique}, {2-,3-clique}, {2-,4-clique}, {3-clique, 4-cycle}, {2-clique, 5-cycle}, "
         "{2-clique, 6-cycle}, K4 ('diamond'), and a two-name custom motif (4-cycle with a chord: outer/inner edges); 2..4 joint-degree classes, N 20..80 "
         "(quick) / up to 400 (thorough), on average >= 2 motifs per vertex, ids shuffled or sorted by class; full-support targets (uniform, product of "
-        "marginals, assortative mix); parameters: limits omitted / CONVERGENCE_LIMIT in {0,1,5,50,500,5000} / SEARCH_LIMIT in {1,5,25}; 1 seed per case; "
+        "marginals, assortative mix); parameters: limits omitted / CONVERGENCE_LIMIT in {0,1,5,50,500,5000} / SEARCH_LIMIT in {1,5,25}; 1 seed per case; 30% of the cases then point the SAME rewiring object at another network/target through its setters and rewire again; "
         "non-trivial = >= 10 accepted swaps and (>= 2 topologies or a corner of >= 2 edges); distinct = SHA-1 of (network, target, parameters, seed)")
 ASSUMPTIONS = ["inputs are clean by construction and re-checked before use (harness code)",
                "rewire() is unwound by logical budgets (thorough: proposals <= 3000*limit + 200000 and a stall window of 100000 proposals without an accepted swap; quick: 60000 proposals, stall window 15000; draws <= 50x the proposal budget); everything observed up to a stop is checked, the run is recorded as stopped",
                "a shape failure is attributed to the known finding K1 only if every shape-breaking swap carries the K1 signature"]
 HEADLINE = ["runs", "accepted_swaps", "proposals", "sig_K1", "sig_ideal", "sig_other", "shape_fail_K1", "shape_ok_swaps", "self_loop_corner_proposals",
-            "default_limit_runs", "stopped_runs", "drawset_invariant_evals", "input_events", "created_edges"]
+            "default_limit_runs", "reused_object_runs", "stopped_runs", "drawset_invariant_evals", "input_events", "created_edges"]
 REQUIRED = {"quick": {"accepted_swaps": 2000, "self_loop_corner_proposals": 20, "default_limit_runs": 5, "hooks_installed": 100, "two_name_runs": 3},
             "thorough": {"accepted_swaps": 100000, "self_loop_corner_proposals": 500, "default_limit_runs": 100, "hooks_installed": 1000, "two_name_runs": 50}}
 SHARD_TIMEOUT = {"quick": 900, "thorough": 14400}
@@ -110,7 +110,7 @@ def make_network(rng, fam, N, ids="shuffled", assort=0.0, graph_cls=MonitoredGra
     return G, info, classes
 
 
-def run_rewire(res, G, names, T, params_extra, seed, budget_scale=1.0, ctx=None, cap=None, stall=None):
+def run_rewire(res, G, names, T, params_extra, seed, budget_scale=1.0, ctx=None, cap=None, stall=None, reuse=None):
     import gcmpy
     from gcmpy import ToolsNames as TN
     net = gcmpy.Network()
@@ -130,7 +130,20 @@ def run_rewire(res, G, names, T, params_extra, seed, budget_scale=1.0, ctx=None,
     returned = False
     with installed_monitor(mon) as im, installed(tap, "mcmc", "drawset"):
         res.count("hooks_installed", im.hooks)
-        m = sut("MarkovChainMonteCarloRewiring(params)", gcmpy.MarkovChainMonteCarloRewiring, params)
+        if reuse is None:
+            m = sut("MarkovChainMonteCarloRewiring(params)", gcmpy.MarkovChainMonteCarloRewiring, params)
+        else:
+            # call history on one object: a new network / target / limits through the public setters, then rewire() again
+            m = reuse
+
+            def _reconfigure():
+                m.network = net
+                m.ejks = tm
+                m.convergence_limit = limit
+                if TN.SEARCH_LIMIT in params_extra:
+                    m.search_limit = params_extra[TN.SEARCH_LIMIT]
+            sut("reconfigure through setters", _reconfigure)
+            res.count("reused_object_runs")
         try:
             H = sut("rewire", m.rewire)
             returned = True
@@ -139,6 +152,7 @@ def run_rewire(res, G, names, T, params_extra, seed, budget_scale=1.0, ctx=None,
             H = work[-1] if work else None
     mon.final(H, returned)
     mon.returned = returned
+    mon.obj = m
     mon.H = H
     mon.rng_calls = dict(tap.counts)
     return mon
@@ -209,6 +223,19 @@ def run_case(case):
     quick = not case.get("thorough")
     mon = run_rewire(res, G, names, T, extra, seed=case["seed"], ctx=base, cap=60000 if quick else None, stall=15000 if quick else 100000)
     fold_monitor(res, mon, base)
+    if res.verdict == "held" and rng.random() < 0.3:
+        # history: the same rewiring object is pointed at another network / target and run again
+        fam2 = rng.choice(list(FAMILIES))
+        G2, info2, classes2 = make_network(rng, fam2, rng.randint(20, 40), ids="shuffled", assort=rng.choice([0.0, 0.5]))
+        if not check_clean(G2):
+            T2 = make_target(rng, G2, info2["names"], rng.choice(["uniform", "product", "assortative"]))
+            extra2 = {TN.CONVERGENCE_LIMIT: rng.choice([5, 50, 100]), TN.SEARCH_LIMIT: rng.choice([5, 25])}
+            base2 = dict(base, second_run_on_same_object={"family": fam2, "classes": classes2, "edges": G2.number_of_edges(),
+                                                          "params": {str(k.value): v for k, v in extra2.items()}})
+            mon2 = run_rewire(res, G2, info2["names"], T2, extra2, seed=case["seed"] + 1, ctx=base2, cap=60000 if quick else None,
+                              stall=15000 if quick else 100000, reuse=mon.obj)
+            fold_monitor(res, mon2, base2)
+            mon.accepted += mon2.accepted
     max_corner = 1 if fam == "c2" else 2
     res.nontrivial = mon.accepted >= 10 and (len(names) >= 2 or max_corner >= 2)
     res.sample = dict(base, accepted=mon.accepted, proposals=mon.props, signatures=dict(mon.sig), stopped=mon.stopped)
